@@ -401,7 +401,7 @@ fn gen_ops_from(rng: &mut Rng, p: Profile, n: usize, roots: u32, wroots: u32, mu
             K::Defer => occ.live_guard(rng).map(|g| op(K::Defer, g as u32, rng.below(crate::closures::NSHAPES as u64) as u32, 0, 0)),
             K::TryAdvance => occ.live_guard(rng).map(|g| op(K::TryAdvance, g as u32, 0, 0, 0)),
             K::Collect => occ.live_guard(rng).map(|g| op(K::Collect, g as u32, 0, 0, 0)),
-            K::Nop | K::Signal | K::Await | K::TlsInit => None,
+            K::Nop | K::Signal | K::Await | K::TlsInit | K::QPush | K::QPop | K::QPopIf | K::LIns | K::LDel | K::LTrav => None,
         };
         if let Some(o) = o {
             out.push(o);
@@ -564,6 +564,7 @@ pub fn generate(prop: &str, family: &str, seed: u64) -> RunDesc {
         "rc-bulk" => gen_interp_run(prop, family, seed, Profile::Bulk),
         "ebr" => gen_interp_run(prop, family, seed, Profile::Ebr),
         "ebr-churn" => crate::fam_ebr::gen_churn(prop, seed),
+        "ebr-longcs" => crate::fam_ebr::gen_longcs(prop, seed),
         "guards" => gen_interp_run(prop, family, seed, Profile::Guards),
         "tls" => gen_interp_run(prop, family, seed, Profile::Tls),
         "dir-t1" => crate::dir::t1(prop, seed),
@@ -572,6 +573,8 @@ pub fn generate(prop: &str, family: &str, seed: u64) -> RunDesc {
         "dir-t4" => crate::dir::t4(prop, seed),
         "dir-t5" => crate::dir::t5(prop, seed),
         "dir-t6" => crate::dir::t6(prop, seed),
+        "dir-t7" => crate::dir::t7(prop, seed),
+        "dir-t8" => crate::dir::t8(prop, seed),
         "dir-w" => crate::dir::w(prop, seed),
         "queue" => crate::fam_queue::gen(prop, seed),
         "list" => crate::fam_list::gen(prop, seed),
